@@ -67,7 +67,10 @@ class Check:
         self.gaps = load_gaps().get(pid, {})
         self.formulas = set()
         self.extra = {}
-        self.replay_dir = os.path.join(VERIF, 'evidence', 'replay', pid)
+        # VERIF_EVIDENCE_DIR: used by tools/seed_matrix.py so that runs against a patched scratch clone do not overwrite
+        # the evidence of /repo
+        self.evidence_dir = os.environ.get('VERIF_EVIDENCE_DIR') or os.path.join(VERIF, 'evidence')
+        self.replay_dir = os.path.join(self.evidence_dir, 'replay', pid)
 
     # ------------------------------------------------------------------ solver
     def solve(self, constraints, timeout_ms=30000, engine='z3'):
@@ -320,8 +323,8 @@ class Check:
             'violations': len(self.violations),
         }
         ev['coverage'].update(self.extra)
-        os.makedirs(os.path.join(VERIF, 'evidence'), exist_ok=True)
-        with open(os.path.join(VERIF, 'evidence', self.pid + '.json'), 'w') as f:
+        os.makedirs(self.evidence_dir, exist_ok=True)
+        with open(os.path.join(self.evidence_dir, self.pid + '.json'), 'w') as f:
             json.dump(ev, f, indent=1, default=str)
         print('%s %s: %d obligations %s; %d queries, solver %.1fs, wall %.1fs' % (
             self.pid, self.tier, n, st, self.queries, self.solver_s, wall))
